@@ -56,7 +56,6 @@
 #endif
 #define V_NPIPE		(NTHR + 1)
 #define V_NFD		(3 + 3 * (NTHR + 1) + 2)	/* 0..2 reserved; per thread: epoll + 2 pipe ends */
-#define V_NEP		(2 * NTHR + 1 + 2)		/* epoll registrations: queue per thread + pvt per worker */
 
 /* The HAVE_* / LINUX defines of the real cmake build are passed by bin/check (CONVENTIONS, "Update"). */
 
